@@ -25,6 +25,8 @@ TRUSTED = [
     'Coq stdlib QArith, Lqa (theorems closed under the global context)',
 ]
 ASSUMPTIONS = [
+    'computechi2: well-conditioned systems are also run with sqivar scaled by 2^-30 .. 2^30 (and bvec by the same, the '
+    'inverse or no factor); all comparisons are relative',
     'computechi2: amatrix is two-dimensional (N, M) as documented, full column rank on the points with non-zero sqivar; '
     'random systems with cond(A^T W A) < 1e5 plus badly scaled polynomial systems in raw pixel coordinates with '
     'cond 2e8 .. 2e10 (the unmodified code is accurate to ~1e-10 there); float64 inputs',
@@ -120,7 +122,26 @@ def gen_chi2(ctx):
         if not (2e8 < cnd < 2e10):
             continue
         ill.append(('chi2-illcond', {'f': 'chi2', 'b': b, 'sq': sq, 'A': A, '_cond': cnd}))
-    return calls + ill
+    # well-conditioned systems at extreme ABSOLUTE scales of the weights (sqivar ~ 1e-9 .. 1e9, powers of two so that the
+    # floats stay short), bvec scaled along or against: every statement about computechi2 is scale free
+    scaled = []
+    shifts = [-30, 30, -28, 25, -30, 30, -20, 12]
+    while len(scaled) < ctx.n(6, 40):
+        k = shifts[len(scaled) % len(shifts)]
+        n = rng.randint(5, 9)
+        m = rng.randint(1, 3)
+        A = dmat(rng, n, m, -2, 2, 3)
+        sq0 = [(0.0 if rng.random() < 0.25 else dy(rng, 0.25, 2, 3)) for _ in range(n)]
+        if sum(1 for s in sq0 if s > 0) < m + 1:
+            continue
+        An = np.array(A)
+        if cond(An.T @ np.diag(np.array(sq0) ** 2) @ An) > 1e4:
+            continue
+        bk = [0, -k, k][len(scaled) % 3]
+        b = [dy(rng, -4, 4, 4) * 2.0 ** bk for _ in range(n)]
+        sq = [s * 2.0 ** k for s in sq0]
+        scaled.append(('chi2-scaled', {'f': 'chi2', 'b': b, 'sq': sq, 'A': A, '_shift': [k, bk]}))
+    return calls + ill + scaled
 
 
 def frac_cov(x, ddof):
